@@ -112,7 +112,7 @@ def _resp(rng, blk, hint, p_good):
             return "good", _body_resp(rng, n, blk)
         return "good-chunked", _body_resp(rng, -1, blk)
     kind = rng.choice(["flip", "short", "long", "badlen", "chunked-bad", "404", "retry", "other", "E", "E",
-                       "404", "retry", "swap", "lenonly", "long-flip"])
+                       "404", "retry", "swap", "lenonly", "long-flip", "flip-abort"])
     if kind == "flip":
         return kind, _body_resp(rng, n if rng.random() < 0.8 else -1, _flip(rng, blk))
     if kind == "short":
@@ -132,6 +132,14 @@ def _resp(rng, blk, hint, p_good):
             head = _flip(rng, blk)
         extra = bytes(rng.randrange(256) for _ in range(rng.choice([1, 2, 9, 40])))
         return "long", _body_resp(rng, -1 if rng.random() < 0.8 else n, head + extra)
+    if kind == "flip-abort":
+        # at least `size` wrong bytes, then the transfer breaks (transport error at the end) or Close fails:
+        # the cached path has filled its buffer and gets an error other than BadChecksum from Close
+        data = _flip(rng, blk) + (bytes(rng.randrange(256) for _ in range(rng.choice([1, 7]))) if rng.random() < 0.4 else b"")
+        clen = -1 if (len(data) != n or rng.random() < 0.6) else n
+        fl = rng.choice(["u", "u", "e"]) + rng.choice("ts")
+        fl += "c" if fl[0] == "e" or rng.random() < 0.2 else "n"
+        return "flip", f"B:{clen}:{fl}:{rng.choice([1, 2, 3, 7, 64, 1000])}:{data.hex()}"
     if kind == "badlen":
         # Content-Length disagrees with the size hint; body is the correct block or is cut/padded to it
         d = rng.choice([-2, -1, 1, 2, 7])
@@ -276,6 +284,16 @@ def _gen_sess(rng, want_file=False, sweepy=False):
     return f"sess {retries} {maxb} {','.join(uuids) or '-'} {'|'.join(blocks)} {toks} {','.join(ops) or '-'}"
 
 
+def _resp_abort(rng, b):
+    """wrong bytes of at least the block's size, then a transport error at the end of the body or a failing Close"""
+    for _ in range(20):
+        kind, r = _resp(rng, b, len(b), 0.0)
+        q = r.split(":")
+        if r[0] == "B" and (q[2][0] == "u" or q[2][2] == "c") and len(q[4]) // 2 >= len(b) and bytes.fromhex(q[4])[:len(b)] != b:
+            return r
+    return f"B:-1:usn:7:{_flip(rng, b).hex()}"
+
+
 def _gen_reread(rng):
     """One or two consistent blocks whose first answers are all 200-but-wrong (flipped / short / long /
     long with corrupted prefix, with or without Content-Length), followed by nothing, by non-200 answers or
@@ -298,9 +316,11 @@ def _gen_reread(rng):
         for _ in range(nsvc):
             sc = []
             for _ in range(rng.randint(1, 3)):
-                k = rng.choice(["flip", "flip", "short", "long", "longflip", "longflip"])
+                k = rng.choice(["flip", "flip", "short", "long", "longflip", "longflip", "abort", "abort"])
                 clen = n if rng.random() < 0.6 else -1
-                if k == "flip":
+                if k == "abort":
+                    sc.append(_resp_abort(rng, b))
+                elif k == "flip":
                     sc.append(_body_resp(rng, clen, _flip(rng, b)))
                 elif k == "short":
                     sc.append(_body_resp(rng, clen, b[:rng.randrange(n)], short_declared=clen >= 0))
@@ -520,6 +540,13 @@ def oracle(case, impl):
     outs = [] if res == "-" else res.split(",")
     if len(outs) != len(ops):
         return "op results missing"
+    counts = [int(o.rsplit("@", 1)[1]) if "@" in o else None for o in outs]
+    outs = [o.rsplit("@", 1)[0] for o in outs]
+    log = impl.split(" log=")[1] if " log=" in impl else "-"
+    log = [] if log == "-" else [tuple(int(x) for x in e.split(".")) for e in log.split(",")]
+    why = _wrongly_sized(blocks, ops, outs, counts, log)
+    if why:
+        return why
     # expected file content (only when every locator is consistent with its planted block)
     filedata = None
     if f[5] != "-" and all(_consistent(b) for b in blocks):
@@ -581,6 +608,52 @@ def oracle(case, impl):
     return None
 
 
+def _answers(blocks):
+    """scripts[b][svc] = list of scripted answers, as written in the case line"""
+    return [[(sv.split(",") if sv else []) for sv in b["script"].split(";")] for b in blocks]
+
+
+def _wrongly_sized(blocks, ops, outs, counts, log):
+    """'If a Keep server answers with ... wrongly sized data, the read ends with an error': a read that
+    succeeds right after a request whose answer declared a Content-Length different from the size in the
+    locator was satisfied by wrongly sized data. Which scripted answer a request received follows from the
+    request log (the k-th request to service s for block b gets the k-th answer of that script)."""
+    if any(c is None for c in counts) or (counts and counts[-1] != len(log)):
+        return None
+    scripts = _answers(blocks)
+    used = {}
+    answers = []
+    for b, svc in log:
+        k = used.get((b, svc), 0)
+        used[(b, svc)] = k + 1
+        sc = scripts[b][svc] if b < len(scripts) and svc < len(scripts[b]) else []
+        answers.append((b, sc[k] if k < len(sc) else "E"))
+    prev = 0
+    for op, o, c in zip(ops, outs, counts):
+        seg, prev = answers[prev:c], c
+        if not seg or op[0] not in "GRr":
+            continue
+        p = o.split(":")
+        if op[0] == "G":
+            if len(p) != 5:
+                continue
+            ok = p[3] == "ok" and (op[-1] in "rw" or p[4] == "ok")
+        elif op[0] == "R":
+            ok = p[3] == "ok"
+        else:
+            ok = len(p) == 3 and p[2] in ("ok", "eof") and len(p[1]) > 0
+        if not ok:
+            continue
+        b, ans = seg[-1]
+        hint = _hint_of(blocks[b]["loc"])
+        if ans.startswith("B:") and hint is not None and hint < 2 ** 63:
+            clen = int(ans.split(":")[1])
+            if clen >= 0 and clen != hint:
+                return (f"op {op} succeeded on an answer that declared Content-Length {clen} for the locator "
+                        f"{blocks[b]['loc'][:44]} (size {hint}): wrongly sized data was accepted")
+    return None
+
+
 def _check_read(blk, off, ln, data, what):
     plant = blk["planted"]
     if blk["loc"][:32] != md5(plant):
@@ -620,7 +693,7 @@ def describe(cases, impl):
             outcomes[r.split(" ")[0]] = outcomes.get(r.split(" ")[0], 0) + 1
             continue
         for o in (r.split(" ")[0].split(",") if f[0] != "seg" else [r]):
-            cls = o.split(":")
+            cls = o.rsplit("@", 1)[0].split(":")
             if f[0] == "seg":
                 key = "seg:" + cls[2]
             elif f[0] == "conc":
